@@ -208,7 +208,8 @@ end
 /-- the message after `UnmarshalJSON` into a fresh message -/
 structure JMsg where
   mti : Option Value
-  /-- field 1 was present in the document (and decoded as hex) -/
+  /-- field 1 (the bitmap) is marked set: it is from `NewMessage` on, whether or not the
+  document has a member "1" (which, if present, must decode as hex) -/
   bitmap : Bool
   fields : List (Nat × Value)
 deriving Repr, Inhabited
@@ -256,7 +257,7 @@ def MsgSpec.ofJsonMembers (c : StrCodec) (spec : MsgSpec) :
 
 /-- `Message.UnmarshalJSON` into a fresh message of the spec -/
 def MsgSpec.unmarshalJSON (c : StrCodec) (spec : MsgSpec) : Json → Res JMsg
-  | .obj kvs => MsgSpec.ofJsonMembers c spec kvs { mti := none, bitmap := false, fields := [] }
+  | .obj kvs => MsgSpec.ofJsonMembers c spec kvs { mti := none, bitmap := true, fields := [] }
   | _ => .err
 
 /-- the codec used by the line driver: literals are the text between two quotes, no
